@@ -153,6 +153,9 @@ pub fn check(case: &Case) -> (String, bool, Vec<(String, String)>) {
 /// the same judgement for any served path whose current content the caller knows
 pub fn check_on(case: &Case, target: &str, file: &[u8]) -> (String, bool, Vec<(String, String)>) {
     let file = file.to_vec();
+    if case.name.is_empty() {
+        return check_whole(case, target, &file);
+    }
     let req = drive::get(target, &[("Host", "localhost"), (case.name.as_str(), case.value.as_str())]);
     let mut s = MockStream::new(&req);
     let out = drive::run(case.entry, &mut s);
@@ -293,12 +296,36 @@ pub fn check_on(case: &Case, target: &str, file: &[u8]) -> (String, bool, Vec<(S
     (class, true, fails)
 }
 
+/// no Range header: 200 with exactly the file as it is now
+fn check_whole(case: &Case, target: &str, file: &[u8]) -> (String, bool, Vec<(String, String)>) {
+    let req = drive::get(target, &[("Host", "localhost")]);
+    let mut s = MockStream::new(&req);
+    let out = drive::run(case.entry, &mut s);
+    let pre = format!("C03:{}", case.entry.name());
+    if let Some(p) = &out.panic {
+        return ("panic".into(), true, vec![(format!("{}:panic:{}:{}", pre, crate::props::c04::call_site(&p.location), panic_class(&p.message)), p.message.clone())]);
+    }
+    match parse_response(&out.raw, BodyRule::Normal) {
+        Err(e) => ("malformed".into(), true, vec![(format!("{}:malformed-response", pre), e.join("; "))]),
+        Ok(r) => {
+            if r.code != 200 {
+                (format!("whole:{}", r.code), true, vec![(format!("{}:whole-file-not-200:{}", pre, r.code), format!("{} for {}", r.code, target))])
+            } else if r.body != file {
+                ("whole:200".into(), true, vec![(format!("{}:whole-file-bytes-wrong", pre), format!("{} bytes sent for a {}-byte file: {:?}", r.body.len(), file.len(), show(&r.body[..r.body.len().min(40)])))])
+            } else {
+                ("whole:200".into(), true, vec![])
+            }
+        }
+    }
+}
+
 pub fn for_each_value(l: usize, thorough: bool, f: &mut dyn FnMut(String)) {
     let offs = offsets(l);
     for u in UNITS {
         for a in &offs {
             f(format!("{}{}-", u, a));
             f(format!("{}-{}", u, a));
+            f(format!("{}{}", u, a)); // a lone number, no hyphen
             if *u == "bytes=" || thorough {
                 for b in &offs {
                     f(format!("{}{}-{}", u, a, b));
@@ -314,6 +341,15 @@ pub fn for_each_value(l: usize, thorough: bool, f: &mut dyn FnMut(String)) {
                 let specs: Vec<&str> = idx.iter().map(|i| alpha[*i].as_str()).collect();
                 f(format!("bytes={}", specs.join(sep)));
             });
+        }
+    }
+    // many specs in one header: k distinct one-byte ranges, k around every plausible cap
+    if l >= 300 {
+        for k in [5usize, 16, 31, 32, 33, 34, 63, 64, 65, 100, 128, 129, 255, 256, 257] {
+            let specs: Vec<String> = (0..k).map(|i| format!("{}-{}", i, i)).collect();
+            f(format!("bytes={}", specs.join(",")));
+            let rev: Vec<String> = (0..k).rev().map(|i| format!("{}-{}", i, i + 1)).collect();
+            f(format!("bytes={}", rev.join(", ")));
         }
     }
     // a few fixed shapes
@@ -424,7 +460,8 @@ pub fn for_each_spelled_value(l: usize, f: &mut dyn FnMut(String)) {
 
 pub const MUT_OBJECTS: &[&str] = &["regular-file", "link-to-file", "link-in-subdirectory"];
 pub const MUT_CHANGES: &[&str] = &["rewritten-same-size", "grown", "shrunk", "emptied", "replaced-by-rename", "link-repointed-to-longer", "link-repointed-to-shorter"];
-pub const MUT_RANGES: &[&str] = &["bytes=0-", "bytes=2-5", "bytes=-3", "bytes=0-0,-1", "bytes=3-"];
+/// "" = no Range header at all (the whole file, 200)
+pub const MUT_RANGES: &[&str] = &["bytes=0-", "bytes=2-5", "bytes=-3", "bytes=0-0,-1", "bytes=3-", ""];
 
 #[derive(Clone, Debug)]
 pub struct Mutation {
@@ -472,7 +509,7 @@ pub fn check_mutation(m: &Mutation) -> (String, Vec<(String, String)>) {
         _ => (real.clone(), None),
     };
     let target = format!("/{}", served);
-    let case = Case { entry: m.entry, l: 0, value: m.range.clone(), name: "Range".to_string() };
+    let case = Case { entry: m.entry, l: 0, value: m.range.clone(), name: if m.range.is_empty() { String::new() } else { "Range".to_string() } };
     let mut fails = Vec::new();
     let (c1, _, f1) = check_on(&case, &target, &first);
     for (sig, d) in f1 {
